@@ -21,9 +21,9 @@ type DiffMeta struct {
 	Max     int          `json:"max"`              // answers to pull
 	Assert  bool         `json:"assert,omitempty"` // load the program with assertz/1 instead of Exec
 	// AssertA: load it with asserta/1, last clause first (the database ends up in program order)
-	AssertA bool `json:"asserta,omitempty"`
-	Family  string       `json:"family,omitempty"`
-	QVars   []int64      `json:"qvars"` // the variables that are compared (default: all 0..NVars-1)
+	AssertA bool    `json:"asserta,omitempty"`
+	Family  string  `json:"family,omitempty"`
+	QVars   []int64 `json:"qvars"` // the variables that are compared (default: all 0..NVars-1)
 	// Unordered: answers are compared as a multiset (used where the property leaves the order of
 	// solutions open, e.g. the order of bagof/setof groups); only for runs the reference completed.
 	Unordered bool        `json:"unordered,omitempty"`
